@@ -181,11 +181,10 @@ pub fn finish(ctx: &Ctx, mut r: Report, replay: Option<&dyn Fn(&Value) -> Result
     }
     for (g, n) in &r.guards {
         r.coverage.insert(format!("guard_{g}"), json!(n));
-        if *n == 0 {
+        if *n == 0 && exit == 0 {
+            // (a run that stopped at a violation legitimately leaves later guards at zero)
             eprintln!("MACHINERY ERROR: vacuity guard '{g}' is zero — the check did not exercise what it claims");
-            if exit == 0 {
-                exit = 2;
-            }
+            exit = 2;
         }
     }
     if !r.coverage.contains_key("samples") {
